@@ -104,15 +104,36 @@ def run_state(ctx, case):
         return
     got = rows_by_query(table)
     sids_a = [p["sid"] for p in A]
-    bpos = {p["sid"]: p for p in B}
+    b_same = lambda nn, t: any(p["sid"] == nn and p["t"] == t for p in B)
+    b_any = lambda nn: any(p["sid"] == nn for p in B)
     extra = set(got) - set(float(s) for s in sids_a)
     if extra:
         ctx.fail("C18_SameTomogramOnly", "rows for unknown query subtomogram numbers %s" % sorted(extra), case,
                  dict(sig0, field="subtomo_idx"))
         return
+    # a subtomogram number may repeat across tomograms: the rows carrying that number are split among the particles that
+    # share it by their world offset (positions are distinct); rows that fit nobody stay with the first one and fail there
+    rows_for = {}
+    for sid in set(sids_a):
+        grp = [i for i, a in enumerate(A) if a["sid"] == sid]
+        rows = got.get(float(sid), [])
+        if len(grp) == 1:
+            rows_for[grp[0]] = rows
+            continue
+        for i in grp:
+            rows_for[i] = []
+        for row in rows:
+            off = np.array([row["coord_x"], row["coord_y"], row["coord_z"]])
+            owner = grp[0]
+            for i in grp:
+                if any(row["subtomo_nn_idx"] == float(e["nn"]) and
+                       np.max(np.abs(off - np.array(e["off"], dtype=float) / geo.U * pxf)) <= 1e-6 for e in case["table"][i]):
+                    owner = i
+                    break
+            rows_for[owner].append(row)
     for i, a in enumerate(A):
         exp = case["table"][i]
-        rows = got.get(float(a["sid"]), [])
+        rows = rows_for.get(i, [])
         if len(rows) != len(exp):
             ctx.fail("C18_Count", "query %d: %d neighbours reported, the specification says %d" % (a["sid"], len(rows), len(exp)),
                      case, dict(sig0, field="count"))
@@ -121,8 +142,8 @@ def run_state(ctx, case):
             where = "query %d rank %d" % (a["sid"], r + 1)
             if row["subtomo_nn_idx"] != float(e["nn"]):
                 nn = int(row["subtomo_nn_idx"]) if math.isfinite(row["subtomo_nn_idx"]) else None
-                other = nn in bpos and bpos[nn]["t"] != a["t"]
-                clause = "C18_SameTomogramOnly" if (other or nn not in bpos) else ("C18_Optimal" if nn not in [x["nn"] for x in exp] else "C18_Ascending")
+                other = nn is not None and b_any(nn) and not b_same(nn, a["t"])
+                clause = "C18_SameTomogramOnly" if (other or nn is None or not b_any(nn)) else ("C18_Optimal" if nn not in [x["nn"] for x in exp] else "C18_Ascending")
                 ctx.fail(clause, "%s: neighbour %s, the specification says %d" % (where, row["subtomo_nn_idx"], e["nn"]), case,
                          dict(sig0, field="subtomo_nn_idx"))
                 break
@@ -232,6 +253,14 @@ def gen_case(rng, idx, big):
     B = None if coincident else mk(rng.randint(1, hi), tb, 5000)
     if B is not None and not ({p["t"] for p in A} & {p["t"] for p in B}):
         B[0]["t"] = A[0]["t"]
+    if B is not None and rng.random() < 0.4:
+        # numbering restarts at 1 in every tomogram: numbers repeat across tomograms and are shared by the two lists
+        # (not for coincident lists: their zero-offset self rows could not be told apart between tomograms)
+        for lst in [A, B]:
+            seen = {}
+            for p in lst:
+                seen[p["t"]] = seen.get(p["t"], 0) + 1
+                p["sid"] = seen[p["t"]]
     motions = {str(t): {"q": [rng.uniform(-180, 180), rng.uniform(0, 180), rng.uniform(-180, 180)],
                         "v": [rng.uniform(-100, 100) for _ in range(3)]} for t in tomos}
     return {"kind": "l3_lists", "id": idx, "A": A, "B": B, "k": rng.randint(1, 5),
@@ -289,7 +318,42 @@ def analyse(ctx, case):
     ca, cb = complete(A), complete(B)
     tb = np.array([p["t"] for p in B])
     sb = np.array([p["sid"] for p in B])
-    bindex = {p["sid"]: j for j, p in enumerate(B)}
+    ta_ = [p["t"] for p in A]
+
+    def b_of(sid, t):
+        """the particle of the second list with that number - in tomogram t when the number repeats"""
+        js = [j for j, p in enumerate(B) if p["sid"] == sid]
+        same = [j for j in js if B[j]["t"] == t]
+        return (same or js or [None])[0]
+
+    def rows_of(table, ia, pa, pb):
+        """rows of the table that belong to query ia; when its number is shared with particles of other tomograms the
+        rows carrying the number are split by their world offset (brute force over the sharing particles)"""
+        rows = table.get(float(A[ia]["sid"]), [])
+        grp = [i for i, p in enumerate(A) if p["sid"] == A[ia]["sid"]]
+        if len(grp) == 1:
+            return rows
+        got_ = {i: [] for i in grp}
+        for row in rows:
+            s = row["subtomo_nn_idx"]
+            res = {}
+            for i in grp:
+                j = b_of(int(s), ta_[i]) if math.isfinite(s) else None
+                if j is None or B[j]["t"] != ta_[i]:
+                    continue
+                res[i] = float(np.max(np.abs(np.array([row["coord_x"], row["coord_y"], row["coord_z"]]) - (pb[j] - pa[i]) * px)))
+            owner = grp[0]
+            if res:
+                lo = min(res.values())
+                tied = [i for i in grp if i in res and res[i] <= lo + 1e-9]
+                # equal offsets (e.g. every particle of coincident lists is its own neighbour at offset 0): a particle
+                # has each neighbour at most once, rows are handed out in table order
+                fresh = [i for i in tied if s not in [r["subtomo_nn_idx"] for r in got_[i]]]
+                owner = (fresh or tied)[0]
+            got_[owner].append(row)
+        return got_[ia]
+
+    ca2, cb2 = complete(A2), complete(B2)
     RA = [geo.zxz_matrix(*p["ang"]) for p in A]
     RB = {}
     judged = list(range(len(A)))
@@ -311,8 +375,8 @@ def analyse(ctx, case):
         if m > 1 and np.min(np.diff(ds[:m])) * 1e4 < 3.0 + 1e-2 * ds[m - 1]:
             ctx.discard("near_tie_query")
             continue
-        rows = t1.get(float(a["sid"]), [])
-        rows2 = t2.get(float(a["sid"]), [])
+        rows = rows_of(t1, ia, ca, cb)
+        rows2 = rows_of(t2, ia, ca2, cb2)
         same_sids = set(int(s) for s in sb[cj])
         keep = list(order[:8])
         for row in rows:
@@ -329,8 +393,8 @@ def analyse(ctx, case):
             rec = {"q": int(row["subtomo_idx"]), "nn": sid, "d": qd(row["distance"]), "same_tomo": sid in same_sids,
                    "off_res": CAP, "foff_res": CAP, "ang": qd(row["angular_distance"]), "ang_gt": 0, "rel_res": CAP,
                    "relz_res": CAP}
-            if sid in bindex:
-                j = bindex[sid]
+            j = b_of(sid, a["t"])
+            if j is not None:
                 off = (cb[j] - ca[ia]) * px
                 if j not in RB:
                     RB[j] = geo.zxz_matrix(*B[j]["ang"])
@@ -434,6 +498,8 @@ def run(ctx):
     states += emitted_states(res, "self")
     res = ctx.tlc("MC_NearestNbr", cfg("SelectConfigs", "Gens", "NoShift", 0, "st"), name="select", workers=1)
     states += emitted_states(res, "select")
+    res = ctx.tlc("MC_NearestNbr", cfg("RestartConfigs", "Gens", "NoShift", 0, "st"), name="restart", workers=1)
+    states += emitted_states(res, "restart")
     res = ctx.tlc("MC_NearestNbr", cfg(ctx.pick("MotionConfigsQuick", "MotionConfigsThorough"), "All", "MCShifts", 1, "st"), name="motion", workers=1)
     states += emitted_states(res, "motion")
     ctx.exhaustive["L1_scopes"] = True
@@ -441,7 +507,7 @@ def run(ctx):
     by_scope = {}
     for s in states:
         by_scope.setdefault(s["scope"], []).append(s)
-    budget = {"orient": ctx.pick(120, 576), "self": ctx.pick(50, 2000), "select": ctx.pick(300, 9000),
+    budget = {"restart": ctx.pick(150, 3000), "orient": ctx.pick(120, 576), "self": ctx.pick(50, 2000), "select": ctx.pick(300, 9000),
               "motion": ctx.pick(180, 5000)}
     chosen = []
     for scope, lst in sorted(by_scope.items()):
